@@ -28,6 +28,8 @@ def histories(rng, tier):
     # refused requests and the maximal one
     out.append("inst " + hx(b"relic-verif"))
     out += ["gen 65537", "gen 1", "gen 65536", "gen 70000", "gen 32", "seed .", "gen 5"]
+    # the same requests made outside any try block (a refusal then only sets the error code and execution continues)
+    out += ["gen_notry 65537", "gen 7", "gen_notry 16", "gen_notry 70000", "gen_notry 0", "gen 33", "gen_notry 65536", "gen 1"]
     # state corners: carry chains of V + H + C + ctr, counters around 2^8, 2^15, 2^16, 2^24, 2^31
     ff = "ff" * SL
     vs = [ff, "00" * SL, "ff" * 23 + "00" * 32, "00" * 23 + "ff" * 32, "ff" * 54 + "fe", "80" + "00" * 54,
